@@ -39,6 +39,8 @@ def evaluate(node):
     k = node[0]
     if k == 'lit':
         v = lit_value(node[1], node[2])
+    elif k == 'val':
+        v = node[1]() if callable(node[1]) else node[1]
     elif k == 'slit':
         v = lit_value(node[2], node[3])
         if node[1] == '-':
@@ -106,6 +108,8 @@ def lex_tokens(node, sep, grouped=False, out=None):
     k = node[0]
     if k == 'lit':
         out.append(('num', render_literal(node[1], sep, grouped) + node[2]))
+    elif k == 'val':
+        out.append(('var', node[2]))
     elif k == 'slit':
         out.append(('num', node[1] + render_literal(node[2], sep, grouped) + node[3]))
     elif k == 'sign':
@@ -130,8 +134,10 @@ def must_space(a, b):
     as a different expression)?"""
     ka, ta = a
     kb, tb = b
-    if ka == 'num' and kb == 'num':
-        return True                       # juxtaposed literals
+    if ka in ('num', 'var') and kb in ('num', 'var'):
+        return True                       # juxtaposed literals / names
+    if ka == 'sign' and kb == 'var':
+        return False
     if ka == 'sign' and kb == 'num':
         return True                       # a detached sign stays detached
     if ka == 'sign' and kb == 'sign':
@@ -226,7 +232,10 @@ def gen_literal(rng, allow_suffix=True, allow_sign=True):
 def gen_tree(rng, depth, opts):
     """opts: dict of generation switches (juxt, detached, suffix, group_sign, juxt_groups, deep_paren)"""
     if depth <= 0 or rng.random() < 0.25:
-        leaf = gen_literal(rng, opts.get('suffix', True))
+        if opts.get('leaf') and rng.random() < opts.get('leaf_p', 0.5):
+            leaf = opts['leaf'](rng)
+        else:
+            leaf = gen_literal(rng, opts.get('suffix', True))
         if opts.get('detached', True) and rng.random() < 0.12:
             return ('sign', rng.choice('-+-'), leaf)
         return leaf
@@ -281,7 +290,7 @@ def _juxt(items):
 def _atom(node):
     """juxtaposed items are literals (signed or not); a detached sign would turn the run into a subtraction"""
     if node[0] == 'sign':
-        return node[2] if node[2][0] in ('lit', 'slit') else ('lit', '1', '')
+        return node[2] if node[2][0] in ('lit', 'slit', 'val') else ('lit', '1', '')
     return node
 
 
@@ -311,7 +320,9 @@ def classes(node, out=None, ctx='top'):
     if out is None:
         out = set()
     k = node[0]
-    if k == 'lit' or k == 'slit':
+    if k == 'val':
+        out.add('variable-use')
+    elif k == 'lit' or k == 'slit':
         if node[-1]:
             out.add('suffix-' + node[-1])
         if k == 'slit':
@@ -355,7 +366,7 @@ def classes(node, out=None, ctx='top'):
 
 def leaves(node):
     k = node[0]
-    if k in ('lit', 'slit'):
+    if k in ('lit', 'slit', 'val'):
         return 1
     if k == 'sign':
         return leaves(node[2])
@@ -371,7 +382,7 @@ def leaves(node):
 def fix_parens(node):
     """Re-insert the parentheses a tree needs so that its rendering reads as the tree."""
     k = node[0]
-    if k in ('lit', 'slit'):
+    if k in ('lit', 'slit', 'val'):
         return node
     if k == 'sign':
         inner = fix_parens(node[2])
@@ -407,6 +418,8 @@ def shrink_candidates(node):
 def _shrink_candidates(node):
     """Smaller trees, most aggressive first."""
     k = node[0]
+    if k == 'val':
+        return
     if k in ('lit', 'slit'):
         for c in ('1', '2', '3'):
             if k == 'lit' and (node[1] != c or node[2]):
@@ -448,6 +461,8 @@ def _shrink_candidates(node):
 
 def size(node):
     k = node[0]
+    if k == 'val':
+        return 2
     if k in ('lit', 'slit'):
         return 1 + len(node[-2]) + (1 if node[-1] else 0) + (1 if k == 'slit' else 0)
     if k in ('sign',):
